@@ -135,6 +135,10 @@ def gen_flatten(rng):
         cond = ["and", atom_e, gen_atom(rng, names, False, ctx)]
     else:
         cond = None
+    if cond is not None and rng.random() < 0.2:
+        # a disjunction over the same variable whose one side yields no row at all for an x with an empty collection
+        atom_x = ["cmp", rng.choice(CMP), ["attr", ["var", x], rng.choice("ab")], ["lit", rng.randint(0, 2)]]
+        cond = ["or", cond, atom_x] if rng.random() < 0.6 else ["or", atom_x, cond]
     choice = rng.random()
     if choice < 0.4 or cond is None:
         sel = [["var", "e"]]
